@@ -5,11 +5,11 @@ CHECK = dict(
     par=6,
     level='exploration',
     rule='one evaluation = one seeded execution of the semaphore stress (ledger mode: demand-driven signallers incl. a plain OS thread, '
-         'waiters with wait/wait(timeout)/wait_interruptible and interrupters; destroy mode: waiter deletes the semaphore right after wait()); '
+         'waiters with wait/wait(timeout)/wait_interruptible and interrupters; destroy mode: waiter deletes the semaphore right after wait(); script mode: a head waiter with a large demand is interrupted or times out while smaller waiters, already covered by count(), are queued behind it); '
          'non-trivial = successful waits AND failed (timed-out or interrupted) waits AND signals were all observed (destroy mode: >=1 round); '
          'distinct = distinct signature (configuration, resume mode, log2-bucketed rare-path counters)',
-    floors=dict(quick=dict(evaluations=20, events=20000, distinct=8, cov={'wait_timeout': 50, 'wait_interrupted': 10, 'signals_from_os_thread': 10, 'destroy_after_wait_rounds': 500}),
-                thorough=dict(evaluations=150, events=400000, distinct=40, cov={'wait_timeout': 500, 'wait_interrupted': 100, 'signals_from_os_thread': 100, 'destroy_after_wait_rounds': 5000, 'C_SEM_OOO_NONHEAD': 10})),
+    floors=dict(quick=dict(evaluations=20, events=20000, distinct=8, cov={'wait_timeout': 50, 'wait_interrupted': 10, 'signals_from_os_thread': 10, 'destroy_after_wait_rounds': 500, 'script_head_interrupted': 200}),
+                thorough=dict(evaluations=150, events=400000, distinct=40, cov={'wait_timeout': 500, 'wait_interrupted': 100, 'signals_from_os_thread': 100, 'destroy_after_wait_rounds': 5000, 'C_SEM_OOO_NONHEAD': 10, 'script_head_interrupted': 2000})),
     assumptions=['x86-TSO hardware; weaker orderings only through TSan', 'lost wake-ups are decided in bounded-progress form: no progress for 5 s while the ledger shows count() >= demand of a blocked waiter'],
     technique='runtime monitoring: token ledger (online upper bound + exact conservation at quiescence), demand-driven signalling with a ledger-gated stuck detector, errno/deadline oracle, heap-lifetime check under ASan/TSan for destroy-after-wait, OS-level stall points and CPU shapes',
     level_text='Held on the seeded executions actually run: tokens taken by successful waits never exceed tokens supplied, the ledger balances exactly at quiescence '
